@@ -914,6 +914,28 @@ func c11HolderReaders(c *core.Ctx, r *core.Report) {
 		stores, others := c.FieldAccesses(holder, f)
 		for _, st := range stores {
 			_, fresh := core.Norm(st.Addr.X).(*ssa.Alloc)
+			if !fresh {
+				// an unexported initialiser that is only ever called on a freshly allocated holder
+				if p, isP := core.Norm(st.Addr.X).(*ssa.Parameter); isP {
+					fn := p.Parent()
+					if fn.Object() != nil && !fn.Object().Exported() && len(fn.Params) > 0 && fn.Params[0] == p && len(c.FuncValueUses(fn)) == 0 {
+						sites := c.CallSites(func(com *ssa.CallCommon) bool { return core.IsCallTo(com, fn) })
+						fresh = len(sites) > 0
+						for _, s := range sites {
+							a0 := core.Norm(s.Common().Args[0])
+							_, isAlloc := a0.(*ssa.Alloc)
+							if call, isCall := a0.(*ssa.Call); isCall {
+								if bi, isB := call.Common().Value.(*ssa.Builtin); isB && bi.Name() == "new" {
+									isAlloc = true
+								}
+							}
+							if !isAlloc {
+								fresh = false
+							}
+						}
+					}
+				}
+			}
 			r.Check(fresh, "C11.R5", "Holder."+f+"-writer@"+core.FnName(st.Fn), c.Pos(st.Instr.Pos()), "the embedding marker is set only while constructing a holder")
 		}
 		seen := map[string]bool{}
@@ -925,6 +947,9 @@ func c11HolderReaders(c *core.Ctx, r *core.Report) {
 			}
 			// a diagnostic method, or an unexported helper that only they call (e.g. the holder chain as a slice)
 			okR := isDiag(top) || (top.Signature.Recv() != nil && core.NamedOf(top.Signature.Recv().Type()) == holder && withinRole(c, top, isDiag, 2))
+			if !okR && top.Signature.Recv() != nil && core.NamedOf(top.Signature.Recv().Type()) == holder && len(c.Callers(top)) == 0 && len(c.FuncValueUses(top)) == 0 {
+				okR = true // an accessor of the holder that nothing in scope calls: processing cannot depend on it
+			}
 			_ = name
 			key := "Holder." + f + "-reader@" + core.FnName(top)
 			if seen[key] {
@@ -950,6 +975,23 @@ func tagGateOf(c *core.Ctx, b *ssa.BasicBlock, depth int) string {
 // condImpliesTag: cond having truth value `branch` implies Tag/PropertyType == constant.
 func condImpliesTag(c *core.Ctx, cond ssa.Value, branch bool, depth int) string {
 	switch x := cond.(type) {
+	case *ssa.Phi:
+		// a flag variable: every way it can have this truth value implies the test
+		if depth > 3 {
+			return ""
+		}
+		gate := ""
+		for _, e := range x.Edges {
+			if k, ok := e.(*ssa.Const); ok && k.Value != nil && (k.Value.String() == "true") != branch {
+				continue // this incoming value is the other truth value
+			}
+			g := condImpliesTag(c, e, branch, depth+1)
+			if g == "" {
+				return ""
+			}
+			gate = g
+		}
+		return gate
 	case *ssa.UnOp:
 		if x.Op == token.NOT {
 			return condImpliesTag(c, x.X, !branch, depth)
